@@ -120,6 +120,40 @@ def _decorators(node: ast.FunctionDef) -> list[str]:
     return out
 
 
+def _canonicalise(tree: ast.Module) -> None:
+    """Alpha-rename, per function, the variable that iterates over a field list to ``field``.
+
+    The rules speak about "the current field" of the structure walkers; which identifier the code uses for it is irrelevant, so the
+    loop variable of ``for X in <...__fields__ | ....fields | fields>`` is renamed to ``field`` (line numbers are untouched).  Skipped when
+    the function already uses ``field`` for something else.
+    """
+    import re as _re
+
+    for fn in ast.walk(tree):
+        if not isinstance(fn, (ast.FunctionDef, ast.AsyncFunctionDef)):
+            continue
+        names = {n.id for n in ast.walk(fn) if isinstance(n, ast.Name)} | {a.arg for a in ast.walk(fn) if isinstance(a, ast.arg)}
+        if "field" in names:
+            continue
+        cands = set()
+        for lp in ast.walk(fn):
+            if isinstance(lp, (ast.For, ast.comprehension)) and isinstance(lp.target, ast.Name) and _re.search(r"(__fields__|\.fields|^fields)$", norm(lp.iter)):
+                cands.add(lp.target.id)
+        for a_ in [*fn.args.posonlyargs, *fn.args.args, *fn.args.kwonlyargs]:
+            if a_.annotation is not None and norm(a_.annotation) in ("Field", "'Field'"):
+                cands.add(a_.arg)
+        if len(cands) != 1:
+            continue
+        old = next(iter(cands))
+        for n in ast.walk(fn):
+            if isinstance(n, ast.Name) and n.id == old:
+                n.id = "field"
+            elif isinstance(n, ast.arg) and n.arg == old:
+                n.arg = "field"
+            elif isinstance(n, ast.keyword) and n.arg == old:
+                pass  # keyword names at call sites belong to the callee
+
+
 class Repo:
     def __init__(self, root: str | None = None):
         self.root = root or REPO_ROOT
@@ -146,6 +180,7 @@ class Repo:
                     tree = ast.parse(src, filename=path)
                 except SyntaxError as e:
                     raise AnalysisError(f"{path} does not parse: {e}") from e
+                _canonicalise(tree)
                 mod = Module(rel=rel, path=path, source=src, tree=tree)
                 self._index_module(mod)
                 self.modules[rel] = mod
